@@ -57,6 +57,57 @@ def build_space(spec):
     return out
 
 
+def build_options(space, opts):
+    """searcher / scheduler options the property quantifies over, derived deterministically (private RandomState,
+    independent of hash seed and of the global generators) from the case's option spec:
+    restrict_configurations (finite list), points_to_evaluate with entries inside / outside that list, partial
+    entries (imputed by the searcher), or the empty list"""
+    from syne_tune.config_space import Domain
+    if not opts:
+        return None, None
+    rs = np.random.RandomState(opts["opt_seed"])
+
+    def sample_cfg():
+        out = {}
+        for k, v in space.items():
+            if isinstance(v, Domain):
+                x = v.sample(random_state=rs)
+                out[k] = x.item() if hasattr(x, "item") else x
+            else:
+                out[k] = v
+        return out
+
+    restrict = None
+    if opts.get("restrict_n"):
+        restrict, seen = [], set()
+        for _ in range(opts["restrict_n"] * 3):
+            c = sample_cfg()
+            key = json.dumps(canon(c))
+            if key not in seen:
+                seen.add(key)
+                restrict.append(c)
+            if len(restrict) >= opts["restrict_n"]:
+                break
+    p2e = None
+    if opts.get("p2e_given"):
+        p2e = []
+        if restrict:
+            for i in rs.choice(len(restrict), size=min(opts.get("p2e_inside", 0), len(restrict)), replace=False):
+                p2e.append(dict(restrict[int(i)]))
+        for _ in range(opts.get("p2e_outside", 0)):
+            p2e.append(sample_cfg())
+        for _ in range(opts.get("p2e_partial", 0)):
+            c = sample_cfg()
+            keys = sorted(k for k in c if isinstance(space[k], Domain))
+            for k in keys:
+                if len(c) > 1 and rs.rand() < 0.5:
+                    del c[k]
+            p2e.append(c)
+        order = rs.permutation(len(p2e))
+        p2e = [p2e[int(i)] for i in order]
+    return restrict, p2e
+
+
 def make_time_keeper():
     from syne_tune.backend.time_keeper import TimeKeeper
 
@@ -107,13 +158,20 @@ def make_scheduler(kind, space, p, seed):
     so = dict(p.get("search_options") or {})
     so.setdefault("debug_log", False)
     common = dict(metric="loss", mode=p.get("mode", "min"), random_seed=seed)
+    restrict, p2e = build_options(space, p.get("opts"))
+    if restrict is not None:
+        so["restrict_configurations"] = restrict
+    p2e_kw = {} if p2e is None else {"points_to_evaluate": p2e}
+    if kind != "msr":
+        common.update(p2e_kw)
     if kind == "fifo":
         searcher = p["searcher"]
         if searcher == "rea":
             rea = cls("searchers.regularized_evolution", "RegularizedEvolution")(
                 space, metric="loss", mode=common["mode"], random_seed=p.get("rea_seed", seed),
-                population_size=p.get("population_size", 4), sample_size=p.get("sample_size", 2))
+                population_size=p.get("population_size", 4), sample_size=p.get("sample_size", 2), **p2e_kw)
             searcher = rea
+            common.pop("points_to_evaluate", None)
         return with_clock(cls("fifo", "FIFOScheduler")(space, searcher=searcher, search_options=so, **common))
     if kind == "hyperband":
         kw = dict(searcher=p["searcher"], search_options=so, type=p["type"], resource_attr="epoch",
@@ -136,7 +194,8 @@ def make_scheduler(kind, space, p, seed):
             perturbation_interval=p.get("perturbation_interval", 2), quantile_fraction=p.get("quantile_fraction", 0.34),
             resample_probability=p.get("resample_probability", 0.5), search_options=so, **common))
     if kind == "msr":
-        inner = with_clock(cls("fifo", "FIFOScheduler")(space, searcher="random", search_options=so, **common))
+        inner = with_clock(cls("fifo", "FIFOScheduler")(space, searcher="random", search_options=so, **common,
+                                                         **p2e_kw))
         return cls("median_stopping_rule", "MedianStoppingRule")(
             scheduler=inner, resource_attr="epoch", metric="loss", grace_time=p.get("grace", 1),
             grace_population=p.get("grace_population", 2), rank_cutoff=p.get("rank_cutoff", 0.5))
@@ -159,10 +218,14 @@ class Recorder:
         before = self.snap()
         try:
             if self.prof is not None:
-                sys.setprofile(self.prof)
+                if self.prof.targets:
+                    sys.settrace(self.prof.trace)
+                else:
+                    sys.setprofile(self.prof)
             return fn(*a, **k)
         finally:
             if self.prof is not None:
+                sys.settrace(None)
                 sys.setprofile(None)
             after = self.snap()
             if before[:4] != after[:4]:
@@ -172,11 +235,38 @@ class Recorder:
 
 
 class Profiler:
-    """names (file, first line) of the syne_tune functions executed"""
+    """names (file, first line) of the syne_tune functions executed; with `targets` = [[file, lo, hi, [lines]], ..]
+    (functions containing effect sites the driver wants to exercise) also which of those LINES were executed"""
 
-    def __init__(self, root):
+    def __init__(self, root, targets=None):
         self.root = os.path.join(os.path.realpath(root), "syne_tune") + os.sep
         self.seen = set()
+        self.targets = [(t[0], t[1], t[2], set(t[3])) for t in (targets or [])]
+        self.hit_lines = set()
+        self.hit_funcs = set()
+
+    def trace(self, frame, event, arg):
+        if event != "call":
+            return None
+        self(frame, "call", None)
+        co = frame.f_code
+        fn = co.co_filename
+        if self.targets and fn.startswith(self.root):
+            rel = fn[len(self.root) - len("syne_tune/"):]
+            for (f, lo, hi, lines) in self.targets:
+                if rel == f and lo <= co.co_firstlineno <= hi:
+                    self.hit_funcs.add((f, lo))
+                    return self.local
+        return None
+
+    def local(self, frame, event, arg):
+        if event == "line":
+            fn = frame.f_code.co_filename
+            rel = fn[len(self.root) - len("syne_tune/"):]
+            for (f, lo, hi, lines) in self.targets:
+                if rel == f and frame.f_lineno in lines:
+                    self.hit_lines.add((f, frame.f_lineno))
+        return self.local
 
     def __call__(self, frame, event, arg):
         if event == "call":
@@ -201,7 +291,7 @@ def run_sched_case(case, twin, repo):
     ev = pyrandom.Random(case["event_seed"])
     pert = pyrandom.Random("%s-%s" % (case["perturb_seed"], twin))
     space = build_space(case["space"])
-    prof = Profiler(repo) if case.get("profile") else None
+    prof = Profiler(repo, case.get("targets")) if (case.get("profile") or case.get("targets")) else None
     rec = Recorder(prof)
     sink = io.StringIO()
     others = []
@@ -299,6 +389,8 @@ def run_sched_case(case, twin, repo):
     out = dict(trace=trace, error=err, consumed=rec.consumed)
     if prof:
         out["executed"] = sorted(prof.seen)
+        out["hit_lines"] = sorted(prof.hit_lines)
+        out["hit_funcs"] = sorted(prof.hit_funcs)
     return out
 
 
@@ -409,6 +501,7 @@ def main():
         except CaseTimeout:
             # a scheduler call that does not return (both twins behave alike): recorded, compared like an error
             sys.setprofile(None)
+            sys.settrace(None)
             results.append(dict(trace=None, table=None, error="Timeout: case did not finish within %d s" % limit,
                                 consumed=[]))
         except Exception as e:   # harness trouble, reported as such
